@@ -134,6 +134,16 @@ CLAIMS = {
              'counts are volatile. Trusted: the vendored registry files.'),
 }
 
+CLAIMS['C20'] = dict(
+    technique='walk assignment normal forms (I-REL) + cursor typestate with yield rule + dispatch extraction of per-tag value kinds + '
+              'path-condition decision tree of the index entries + sign-extension consistency + evaluated byte-code ring '
+              '(totality/partition over all 256 bytes, per-handler consumption, ULEB loop summary)',
+    level=LEVEL,
+    note='Decides: attribute walks advance from the current element with explicit positions, subsection header and tag layouts, '
+         'value kind per tag vs the ARM/RISC-V tag tables, index entry stride/places/decision tree/byte extraction, prel31 sign bit '
+         'and extension, ring totality + first-match partition vs IHI 0038 Table 4 + consumption + ULEB operand loop. Not decided: '
+         'mnemonic text, attribute values. Trusted: IHI 0038/0045 rows in props/C20.py.')
+
 NOT_YET = 'rules for this property are not built yet in this session (claimed once its check exists)'
 NOT_APPLICABLE = {
     'C18': 'output equality with GNU readelf: the oracle binary is emptied in this sandbox, formatted text is a runtime '
